@@ -241,6 +241,11 @@ where
 
     // Keep on running forever until we receive the instruction to stop.
     while keep_running {
+        #[cfg(aws_clock_bound_verif)]
+        if crate::verif::fault::point(crate::verif::fault::WRITER_LOOP) {
+            return;
+        }
+
         match ctx.mbox.recv() {
             Ok(Message::ClockErrorBoundData((tracking, phc_error_bound, as_of))) => {
                 // TODO use phc_error_bound here
@@ -269,6 +274,10 @@ where
 /// Entry point to this thread.
 pub fn run(ctx: Context, max_drift_ppb: u32) {
     info!("Starting shared memory writer thread");
+    #[cfg(aws_clock_bound_verif)]
+    if crate::verif::fault::point(crate::verif::fault::WRITER_START) {
+        return;
+    }
     // Create a writer to update the clock error bound shared memory segment
     let writer = match ShmWriter::new(Path::new(CLOCKBOUND_SHM_DEFAULT_PATH)) {
         Ok(writer) => {
